@@ -64,9 +64,11 @@ func init() {
 			{Pkg: wtxmgrPkg, Fn: "ZzC10U3P2", Tiers: "t", Reach: []string{"fault-hit", "c10-end"}, Bound: "U3 (conflicts), pre-states after 2 events"},
 			{Pkg: wtxmgrPkg, Fn: "ZzC10U1P2", Tiers: "t", Reach: []string{"fault-hit", "c10-end"}, Bound: "U1, pre-states after 2 events"},
 			{Pkg: wtxmgrPkg, Fn: "ZzC10U3P3", Tiers: "t", Reach: []string{"fault-hit", "c10-end"}, Bound: "U3, pre-states after 3 events"},
+			{Pkg: waddrmgrPkg, Fn: "ZzC10Mgr0", Tiers: "qt", Reach: []string{"fault-hit", "c10-end", "fault-not-reached"}, Bound: "address manager, fresh unlocked: each of 10 operations (next ext/int, extend, new account, rename, mark used, import key, import script, set synced-to, change passphrase) with the k-th write failing, k symbolic"},
+			{Pkg: waddrmgrPkg, Fn: "ZzC10Mgr1", Tiers: "qt", Reach: []string{"fault-hit", "c10-end"}, Bound: "address manager after one issued address, same 10 operations"},
 		},
-		Assume:  append([]string{"a failed write is modelled as the walletdb call returning an error without effect; read-side failures and bbolt's own failure modes are not modelled", "address-manager operations are not covered yet (transaction store only)"}, storeAssume...),
-		Outside: "address manager operations; pre-states beyond the listed histories; multiple faults in one operation",
+		Assume:  append([]string{"a failed write is modelled as the walletdb call returning an error without effect; read-side failures and bbolt's own failure modes are not modelled", "address manager part: concrete seed, native crypto, compared with a freshly opened manager (C08's observations)"}, storeAssume...),
+		Outside: "pre-states beyond the listed histories; multiple faults in one operation; wallet-level operations",
 	})
 	reg(&propDef{
 		ID: "C19",
@@ -196,5 +198,18 @@ func init() {
 		},
 		Assume:  mgrAssume,
 		Outside: "more than 3 transactions, imports, several accounts beyond the ones created, wallet-level dry-run transaction creation (txToOutputs)",
+	})
+	reg(&propDef{
+		ID: "C04",
+		Runs: []hrun{
+			{Pkg: waddrmgrPkg, Fn: "ZzC04", Tiers: "qt", NoWitness: true, Reach: []string{"c04-end", "created", "imported", "passphrase-changed"}, Bound: "one operation order: create, open, unlock, 3 addresses, import private key + secret P2SH script + secret witness script, new account, private passphrase change, convert to watching-only, reopen; both passphrases, the new passphrase and both secret scripts SYMBOLIC; every window of every key/value ever written compared with 40+ secrets (and, until imports, public material)"},
+		},
+		Assume: append([]string{
+			"granularity: the bytes handed to walletdb Put/CreateBucket (memdb write log, a superset of every commit image); bbolt's file image, page reuse and what a crash leaves in freed pages are outside",
+			"a stored window 'is' a symbolic secret if equality is valid under the path condition (solver); seed-derived keys and the imported key are concrete (byte search)",
+			"witness paths are not replayed natively: natively a symbolic secret takes the model's concrete value, which may coincide with ordinary database bytes",
+			"ideal AEAD: a ciphertext never coincides with its plaintext",
+		}, mgrAssume...),
+		Outside: "other operation orders, taproot scripts, wtxmgr's namespace (public scripts are stored there once transactions are recorded), the wallet package's own buckets",
 	})
 }
